@@ -249,19 +249,33 @@ def assigns(tree, wanted):
     return out
 
 
+def _dict_items(node):
+    ''' (key, value) pairs of a dict written as a literal `{k: v}` or as a call `dict(k=v)` / `dict({k: v})` '''
+    if isinstance(node, ast.Dict):
+        return list(zip(node.keys, node.values))
+    if isinstance(node, ast.Call) and _name(node.func) == 'dict':
+        items = []
+        for a in node.args:
+            items += _dict_items(a)
+        items += [(kw.arg, kw.value) for kw in node.keywords if kw.arg is not None]
+        return items
+    raise ExtractError('not a dict literal or dict(...) call: %s' % ast.dump(node)[:80])
+
+
 def crc_defs(tree):
     ''' CRC_DEFN: {CrcType member: (crcmod name, struct format)} '''
     _use(tree)
     out = {}
     for node in ast.walk(tree):
         if isinstance(node, ast.Assign) and _name(node.targets[0]) == 'CRC_DEFN':
-            for k, v in zip(node.value.keys, node.value.values):
+            for k, v in _dict_items(node.value):
                 key = _name(k).split('.')[-1]
                 ent = {}
-                for kk, vv in zip(v.keys, v.values):
-                    if kk.value == 'func':
+                for kk, vv in _dict_items(v):
+                    kname = kk if isinstance(kk, str) else kk.value
+                    if kname == 'func':
                         ent['func'] = _const(vv.args[0])
-                    elif kk.value == 'encode':
+                    elif kname == 'encode':
                         ent['fmt'] = _const(vv.body.args[0])
                 out[key] = (ent['func'], ent['fmt'])
     if not out:
